@@ -9,6 +9,7 @@ Extraction "extract/ModelPipeline.ml"
   Utf8.valid_utf8
   GenLexer.tok_name GenLexer.lexerr_msg GenParser.synerr_msg
   F64.of_bits F64.to_bits
+  Lang.display
   StaticRules.category
   LexResolve.lexical LexResolve.same_binding_structure LexResolve.no_early_capture
   RulesWf.erase_ids
